@@ -367,6 +367,10 @@ XalanQNameByValue::initialize(
             {
                 m_namespace = *theNamespace;
             }
+            else
+            {
+                m_namespace.clear();
+            }
         }
 
         m_localpart = qname;
@@ -434,6 +438,12 @@ XalanQNameByValue::resolvePrefix(
             if (theNamespace != 0)
             {
                 m_namespace = *theNamespace;
+            }
+            else
+            {
+                // The instance may be one that is used again and
+                // again, so don't keep the previous namespace.
+                m_namespace.clear();
             }
         }  
 
